@@ -3,7 +3,12 @@ import BarterModel.Model.Stale
 /-!
 Line-protocol driver for C09. Ops: `init n` | `bal a t total free` | `full (a t total free)*`
 | `trade i t price` | `l1 i te tl bp ba ap aa` | `l1e i te tl` (empty top of book) | `ord i c id t filled` (open report, quantity 10)
-| `cancel i c` (a cancel request for the order is sent: `record_in_flight_cancel`).
+| `cancel i c` (a cancel request for the order is sent: `record_in_flight_cancel`)
+| `ordx i c <Cancelled|Filled|Expired|Failed> t` (TERMINAL order report; `t` is the exchange time of a
+`Cancelled` report, carried for the record only: the code never reads it)
+| `acct (B a t total free | O i c id t filled | X i c kind t)*` (ONE full account snapshot carrying
+balances AND order reports — open and terminal —, applied item by item: balances first, then the
+orders in the order given, each in its own `InstrumentAccountSnapshot`).
 -/
 namespace BarterModel.Driver.C09
 open BarterModel.Driver BarterModel.Stale BarterModel.Orders
@@ -50,6 +55,36 @@ inductive POp where
   | l1 (i : Nat) (te : Int) (x : L1)
   | ord (i c : Nat) (o : Open)
   | cancel (i c : Nat)
+  | ordx (i c : Nat) (k : Inactive)
+  | acct (bals : List (Nat × Msg Bal)) (ords : List (Nat × Snap))
+
+def parseInactive : String → Option Inactive
+  | "Cancelled" => some .cancelled
+  | "Filled" => some .fullyFilled
+  | "Expired" => some .expired
+  | "Failed" => some .openFailed
+  | _ => none
+
+/-- an open report as an order snapshot (order quantity 10, price 100, as every `ord` op) -/
+def openSnap (c : Nat) (o : Open) : Snap := ⟨c, 10, 100, .active (.opn o), 0⟩
+def finishedSnap (c : Nat) (k : Inactive) : Snap := ⟨c, 10, 100, .inactive k, 0⟩
+
+/-- items of an `acct` op -/
+def parseAcctItems : List String → Option (List (Nat × Msg Bal) × List (Nat × Snap))
+  | [] => some ([], [])
+  | "B" :: a :: t :: tot :: free :: rest =>
+    match a.toNat?, t.toInt?, parseRat? tot, parseRat? free, parseAcctItems rest with
+    | some a, some t, some tot, some free, some (bs, os) => some ((a, (t, (tot, free))) :: bs, os)
+    | _, _, _, _, _ => none
+  | "O" :: i :: c :: id :: t :: f :: rest =>
+    match i.toNat?, c.toNat?, id.toNat?, t.toInt?, parseRat? f, parseAcctItems rest with
+    | some i, some c, some id, some t, some f, some (bs, os) => some (bs, (i, openSnap c ⟨id, t, f⟩) :: os)
+    | _, _, _, _, _, _ => none
+  | "X" :: i :: c :: k :: t :: rest =>
+    match i.toNat?, c.toNat?, parseInactive k, t.toInt?, parseAcctItems rest with
+    | some i, some c, some k, some _, some (bs, os) => some (bs, (i, finishedSnap c k) :: os)
+    | _, _, _, _, _ => none
+  | _ => none
 
 def parseBalItems : List String → Option (List (Nat × Msg Bal))
   | [] => some []
@@ -82,6 +117,11 @@ def parseOp : List String → Option POp
     match i.toNat?, c.toNat? with
     | some i, some c => some (.cancel i c)
     | _, _ => none
+  | ["ordx", i, c, k, t] =>
+    match i.toNat?, c.toNat?, parseInactive k, t.toInt? with
+    | some i, some c, some k, some _ => some (.ordx i c k)
+    | _, _, _, _ => none
+  | "acct" :: rest => (parseAcctItems rest).map fun (bs, os) => .acct bs os
   | _ => none
 
 def POp.inRange (n : Nat) : POp → Bool
@@ -90,6 +130,8 @@ def POp.inRange (n : Nat) : POp → Bool
   | .l1 i _ _ => i < n
   | .ord i _ _ => i < n
   | .cancel i _ => i < n
+  | .ordx i _ _ => i < n
+  | .acct bals ords => bals.all (fun am => am.1 < n + 1) && ords.all (fun is => is.1 < n)
 
 def model : Drv St where
   init := ⟨Eng.init 0 0, [], 0⟩
@@ -110,6 +152,9 @@ def model : Drv St where
           | .l1 i te x => { s with eng := s.eng.bookL1 i te x }
           | .ord i c o => { s with orders := s.orders.apply i (.snapshot ⟨c, 10, 100, .active (.opn o), 0⟩) }
           | .cancel i c => { s with orders := s.orders.apply i (.recCancel c) }
+          | .ordx i c k => { s with orders := s.orders.apply i (.snapshot (finishedSnap c k)) }
+          | .acct bals ords =>
+            { s with eng := s.eng.fullSnapshot bals, orders := s.orders.applySnapshot ords }
         (s', obs s')
 
 /-- spec state: the delivered messages per item, in delivery order -/
@@ -120,6 +165,8 @@ structure SpecSt where
   l1s : List (List (Msg L1))
   l1Poisoned : List Bool
   ords : List (List (Nat × Msg Open))
+  /-- per instrument: the client order ids for which a TERMINAL report was delivered -/
+  fin : List (List Nat)
 
 def setOf (vals : List String) : String := "{" ++ "|".intercalate vals ++ "}"
 
@@ -134,23 +181,43 @@ def pushAt {α : Type} (l : List (List α)) (i : Nat) (x : α) : List (List α) 
   | some xs => l.set i (xs ++ [x])
   | none => l
 
+/-- THE PROPERTY, LITERALLY, for open-order details: the details held for an order carry the greatest
+exchange timestamp delivered so far for that order among its open reports (with a value delivered with
+that timestamp) — or the order is not held. "Not held" is admitted only once the exchange has reported
+the order finished (before that an order with a delivered open report and something left to fill IS
+held); it is NOT admitted to hold OLDER details than delivered, whatever was reported in between. -/
+def specOrdLine (key : String) (ms : List (Msg Open)) (finished : Bool) : String :=
+  match maxTime ms with
+  | none => key ++ " none"
+  | some _ =>
+    let vals := (valuesAtMax ms).map fmtOpen
+    key ++ " " ++ setOf (if finished then "none" :: vals else vals)
+
+/-- one order report of a full account snapshot / an `ord` / `ordx` op, as the spec sees it -/
+def specOrder (s : SpecSt) (i : Nat) (sn : Snap) : SpecSt :=
+  match sn.state with
+  | .active (.opn o) => { s with ords := pushAt s.ords i (sn.cid, (o.t, o)) }
+  | .inactive _ => { s with fin := pushAt s.fin i sn.cid }
+  | _ => s
+
 def specObs (s : SpecSt) : List String :=
   (s.bals.zipIdx.map fun (ms, a) => specLine s!"bal{a}" ms fmtBal true) ++
   (s.trades.zipIdx.map fun (ms, i) => specLine s!"trade{i}" ms fmtRat true) ++
   ((s.l1s.zipIdx.filterMap fun (ms, i) =>
     if s.l1Poisoned[i]?.getD false then none else some (specLine s!"l1{i}" ms fmtL1 true))) ++
   ((s.ords.zipIdx.map fun (ms, i) =>
-    cids.map fun c => specLine s!"ord{i}_{c}" ((ms.filter (·.1 == c)).map (·.2)) fmtOpen false).flatten)
+    cids.map fun c => specOrdLine s!"ord{i}_{c}" ((ms.filter (·.1 == c)).map (·.2))
+      ((s.fin[i]?.getD []).contains c)).flatten)
 
 def spec : Drv SpecSt where
-  init := ⟨0, [], [], [], [], []⟩
+  init := ⟨0, [], [], [], [], [], []⟩
   step s toks :=
     match toks with
     | ["init", n] =>
       match n.toNat? with
       | some n =>
         let s' : SpecSt := ⟨n, List.replicate (n + 1) [], List.replicate n [], List.replicate n [],
-          List.replicate n false, List.replicate n []⟩
+          List.replicate n false, List.replicate n [], List.replicate n []⟩
         (s', specObs s')
       | none => (s, ["bad-op"])
     | _ =>
@@ -167,6 +234,10 @@ def spec : Drv SpecSt where
           | .ord i c o => { s with ords := pushAt s.ords i (c, (o.t, o)) }
           -- a cancel request sent (once or repeatedly) delivers nothing from the exchange
           | .cancel _ _ => s
+          | .ordx i c k => specOrder s i (finishedSnap c k)
+          | .acct bals ords =>
+            let s1 : SpecSt := { s with bals := bals.foldl (fun b am => pushAt b am.1 am.2) s.bals }
+            ords.foldl (fun st is => specOrder st is.1 is.2) s1
         (s', specObs s')
 
 end BarterModel.Driver.C09
